@@ -106,6 +106,9 @@ func buildLines(c seCase) ([]seLine, []byte) {
 		if t.Term == "crlf" {
 			termLen = 2
 		}
+		if i == len(c.Tokens)-1 && c.Unterminated {
+			termLen = 0 // the stream ends after this line's last byte: nothing else has to fit
+		}
 		if t.Fit == "long" {
 			want := c.BufSize
 			switch t.LongLen {
